@@ -847,6 +847,7 @@ fn build_one(c: &mut Ctx, fam: &str, idx: u64, rng: &mut Rng) {
 }
 
 pub fn run(c: &mut Ctx) {
+    c.families(3);
     if let Some(r) = c.replay.clone() {
         if let Some(h) = r.get("extra").and_then(|e| e.get("opt_rdata_hex")).and_then(|h| h.as_str()) {
             let oct = unhex(h);
